@@ -13,5 +13,7 @@ CONSTANTS
   MaxStore = 0
   CtxMode = "ignored"
   MaxStalls = 1
+  StaleNextHop = FALSE
   Tails = TRUE
+  Vias <- ViasAny
 INVARIANTS EmitStalled RunAgrees
